@@ -112,6 +112,12 @@ Definition judge_penalty (uniform : bool) (I : instance) (r : tree) : tree :=
                     else if negb ((p_sense P =? i_sense I)%Z && list_eqb dvar_eqb (p_dvs P) (i_dvs I) &&
                                   mset_eqb dep_eqb (p_deps P) (i_deps I) && tree_eqb (p_hints P) (i_hints I))
                     then disagree "variables, sense, dependencies and hints are carried over" (L [])
+                    else if negb (tree_eqb (p_desc P) (i_desc I))
+                    then disagree "the description is carried over" (i_desc I)
+                    else if negb (list_eqb removed_eqb (firstn (List.length (i_rs I)) (p_rs P)) (i_rs I))
+                    then disagree "previously removed constraints keep their reason and reason parameters" (L [])
+                    else if negb (list_eqb removed_eqb (p_rs P) (p_rs M))
+                    then disagree "the newly removed constraints record the method as reason and the weight parameter's id" (L [])
                     else agree ["penalty"; if uniform then "uniform" else "per-constraint";
                                 match i_rs I with [] => "no-previous-removed" | _ => "previous-removed" end]
                 end
